@@ -568,11 +568,49 @@ Fixpoint exec_all (d : db) (l : list stmt) : eres db :=
   | s :: l' => match exec d s with EErr e => EErr e | EOk d' => exec_all d' l' end
   end.
 
+(** execute until the first refused statement (a refused statement leaves the state it found) *)
+Fixpoint run (d : db) (l : list stmt) : db * option eerr :=
+  match l with
+  | [] => (d, None)
+  | s :: l' => match exec d s with EErr e => (d, Some e) | EOk d' => run d' l' end
+  end.
+
 (** sqlx.ApplyChanges: plan, then execute statement by statement.  [None] = planning failed. *)
 Definition ApplyChanges (d : db) (cs : list schange) : option (eres db) :=
   match PlanChanges cs with
   | PErr _ => None
   | POk l => Some (exec_all d l)
+  end.
+
+(** ** the two ways `atlas schema apply` runs a plan (cmd/atlas/internal/cmdapi/schema.go:
+    applyChanges) on a connection that is not inside a transaction *)
+Inductive txmode := TxNone | TxFile.
+
+(** sql/sqlite/driver.go: OpenTx -- PRAGMA foreign_keys = off when it is on, then BEGIN *)
+Definition OpenTx (d : db) : db := mkDb (d_tables d) false true.
+
+(** CommitFunc / RollbackFunc -- tx.Commit (or Rollback), then PRAGMA foreign_keys = on again if
+    it was on before (enableFK).  The foreign_key_check comparison of CommitFunc can only turn a
+    commit into a rollback; it is not modelled. *)
+Definition close_tx (fk_before : bool) (tables : list etable) : db := mkDb tables fk_before false.
+
+(** cmdapi.applyChanges: [--tx-mode none] runs the plan on the connection; [--tx-mode file] runs
+    it inside client.Tx (= OpenTx) and rolls back when a statement is refused.  The result is the
+    database afterwards and the error, if any. *)
+Definition schema_apply (mode : txmode) (d : db) (cs : list schange) : option (db * option eerr) :=
+  match PlanChanges cs with
+  | PErr _ => None
+  | POk p =>
+    match mode with
+    | TxNone =>
+        (* sqlx.ApplyChanges stops at the first refused statement; what was executed stays *)
+        Some (run d p)
+    | TxFile =>
+        match exec_all (OpenTx d) p with
+        | EOk d' => Some (close_tx (d_fk d) (d_tables d'), None)
+        | EErr e => Some (close_tx (d_fk d) (d_tables d), Some e)      (* rollback *)
+        end
+    end
   end.
 
 End Engine.
